@@ -87,3 +87,36 @@ theorem cumsum_monotone (out src : Nat → Int)
       simpa [Nat.add_assoc] using this
     have h2 := hnonneg (k + d + 1)
     omega
+
+/-- count_monotone / count_two: a counter that adds 1 exactly where `mask` holds is non-decreasing, and counts at least 2
+    over [0, n) when `mask` holds at two different positions a < b < n.
+    Used by: C02 (`read_swc`: `np.count_nonzero(pid == -1) > 1` is false, so the table handed to `sort_nodes_` has at most one root row). -/
+theorem count_monotone (f : Nat → Nat) (mask : Nat → Bool)
+    (hs : ∀ i, f (i + 1) = f i + (if mask i then 1 else 0)) :
+    ∀ k d, f k ≤ f (k + d) := by
+  intro k d
+  induction d with
+  | zero => simp
+  | succ d ih =>
+    have h1 : f (k + (d + 1)) = f (k + d) + (if mask (k + d) then 1 else 0) := by
+      have := hs (k + d)
+      simpa [Nat.add_assoc] using this
+    rw [h1]
+    exact Nat.le_trans ih (Nat.le_add_right _ _)
+
+theorem count_two (f : Nat → Nat) (mask : Nat → Bool) (n a b : Nat)
+    (hs : ∀ i, f (i + 1) = f i + (if mask i then 1 else 0))
+    (hab : a < b) (hbn : b < n) (ha : mask a = true) (hb : mask b = true) :
+    2 ≤ f n := by
+  have mono := count_monotone f mask hs
+  have h1 : f (a + 1) = f a + 1 := by rw [hs a]; simp [ha]
+  have h2 : f (b + 1) = f b + 1 := by rw [hs b]; simp [hb]
+  have h3 : f (a + 1) ≤ f b := by
+    have := mono (a + 1) (b - (a + 1))
+    have e : a + 1 + (b - (a + 1)) = b := by omega
+    rw [e] at this; exact this
+  have h4 : f (b + 1) ≤ f n := by
+    have := mono (b + 1) (n - (b + 1))
+    have e : b + 1 + (n - (b + 1)) = n := by omega
+    rw [e] at this; exact this
+  omega
